@@ -35,8 +35,10 @@ fn callee_body<const K: u8>(input: u32, p: &mut PlainParams, n: &mut u32) -> u32
     p.h_mut().callee_seq += 1;
     let seq = p.h_mut().callee_seq;
     log(Ev::SysBody { key: K, n: *n, input });
+    p.h_mut().callee_calls[K as usize % 3] += 1;
+    let call = p.h_mut().callee_calls[K as usize % 3];
     let prog = p.h_mut().prog.clone();
-    let ops = prog.callee_script(K, *n);
+    let ops = prog.callee_script(K, call);
     interp(ops, CALLEE_BASE + state, seq, p);
     log(Ev::SysBodyEnd { key: K, n: *n });
     value * 1000 + *n
@@ -155,12 +157,16 @@ pub fn gen_callees(g: &mut dyn GenOps) -> Vec<Vec<Vec<Op>>>
             ops.retain(|o| !matches!(o, Op::CmdSyscall(..) | Op::Direct(WOp::Syscall(..)) | Op::Direct(WOp::SpawnSys(..)) | Op::Direct(WOp::KillSys(..)) | Op::Now(_)));
             if g.rng().chance(50)
             {
-                if let Some((k, k2)) = gen_kind(g.rng(), key + 1)
+                let min = if g.rng().chance(35) { 0 } else { key + 1 };
+                if let Some((k, k2)) = gen_kind(g.rng(), min)
                 {
                     if !matches!(k, SysKind::Spawned) { let v = g.rng().below(50) as u32; ops.push(Op::Direct(WOp::Syscall(k, k2, v))); }
                 }
             }
             if g.rng().chance(25) { let k = g.rng().below(2) as u8; let v = g.rng().below(50) as u32; ops.push(Op::Direct(WOp::Syscall(SysKind::Spawned, k, v))); }
+            // re-entrancy on the callee's own key (documented: only the outer-most invocation's state persists)
+            if g.rng().chance(25) { let n = g.rng().below(2) as u8; let v = g.rng().below(50) as u32; ops.push(Op::Direct(WOp::Syscall(SysKind::Named(n), key, v))); }
+            if g.rng().chance(15) { let v = g.rng().below(50) as u32; ops.push(Op::Direct(WOp::Syscall(SysKind::Plain, key, v))); }
             scripts.push(ops);
         }
         scripts.push(Vec::new());
